@@ -457,6 +457,62 @@ def apply_edit(doc, op):
         pass
 
 
+def concrete_obs(doc, op):
+    """raw data for the concrete Gallina models of Model/PurityQueries.v: the inputs the model needs
+    and what the implementation answered (twice for the cached triangulation)"""
+    try:
+        k = op[0]
+        if k in ('triangleset', 'input_list'):
+            g = pick(all_geoms(doc), op[1])
+            p = pick(g.primitives, op[2]) if g is not None else None
+            if p is None:
+                return None
+            if k == 'input_list':
+                src = [[sem, [[t[0], t[1], t[2], t[3]] for t in tupes]] for sem, tupes in p.sources.items()]
+                seen = [list(t) for t in p.getInputList().getList()]
+                if sum(len(x[1]) for x in src) > 12:
+                    return None
+                return {'kind': 'inputs', 'sources': src, 'seen': seen}
+            if not hasattr(p, 'triangleset') or len(p.index) > 60:
+                return None
+            n = p.nindices
+            out = []
+            for _ in range(2):
+                try:
+                    ts = p.triangleset()
+                    out.append(numpy.asarray(ts.index).reshape(-1, 3, n).tolist())
+                except Exception:  # noqa
+                    out.append(None)
+            return {'kind': 'tri', 'vcounts': [int(v) for v in p.vcounts], 'rows': numpy.asarray(p.index).reshape(-1, n).tolist(),
+                    'r1': out[0], 'r2': out[1]}
+        if k == 'index_lib' and len(op) > 3 and op[3]:
+            lib = getattr(doc, op[1])
+            if len(lib) > 12 or not all(isinstance(getattr(o, 'id', None), str) for o in lib):
+                return None
+            uid = {id(o): i + 1 for i, o in enumerate(lib)}
+            if not all(id(o) in uid for o in lib._index.values()) or not all(isinstance(q, str) for q in lib._index):
+                return None
+            seen = []
+            for kind, key in op[3]:
+                try:
+                    if kind == 'get':
+                        r = lib.get(key)
+                        seen.append([kind, key, 'ok', uid.get(id(r), 0) if r is not None else None])
+                    elif kind == 'in':
+                        seen.append([kind, key, 'ok', 1 if key in lib else None])
+                    else:
+                        seen.append([kind, key, 'ok', uid.get(id(lib[key]), 0)])
+                except KeyError:
+                    seen.append([kind, key, 'KeyError', None])
+                except Exception:  # noqa
+                    return None
+            return {'kind': 'lookups', 'items': [[uid[id(o)], o.id] for o in lib],
+                    'index': [[q, uid[id(o)]] for q, o in lib._index.items()], 'seen': seen}
+    except Exception:  # noqa
+        return None
+    return None
+
+
 def do_save(doc):
     buf = io.BytesIO()
     try:
@@ -560,7 +616,8 @@ def run_case(case):
         seg.setdefault(key, r1)
         steps.append({'op': k, 'changed': sorted(set(ch1.values())), 'changed2': sorted(set(ch2.values())),
                       'repeat_equal': rep, 'same_as_twin': True,
-                      'raised': r1[1] if isinstance(r1, list) and r1[:1] == ['raised'] else None})
+                      'raised': r1[1] if isinstance(r1, list) and r1[:1] == ['raised'] else None,
+                      'conc': concrete_obs(A, op)})
         obs1 = {p: c for p, c in list(ch1.items()) + list(ch2.items()) if c not in HIDDEN}
         if obs1:
             cls = sorted(set(obs1.values()))
